@@ -1,6 +1,7 @@
 """Shared engine of the layout properties C03 / C04 / C08 / C09 / C12 / C20: generates layout-heavy programs,
 runs the pipeline correspondence (real assembler vs Gallina pass model) and evaluates each property directly on
 the REAL output with the Spec decoders (bbspec) as oracle."""
+import re
 import random
 import struct
 
@@ -329,6 +330,31 @@ TRANSFER_HEADS = {'beq', 'bne', 'blt', 'bge', 'bltu', 'bgeu', 'beqz', 'bnez', 'b
                   'bleu', 'j', 'jal', 'call', 'tail'}
 
 
+def absolute_label_cause(lines, n, ru):
+    """Known finding K2: the line refused with -c is not a pc-relative transfer and mentions the ABSOLUTE value of a label; with the
+    label values of the uncompressed run written in as numbers the very same program assembles with -c.  So the only reason for
+    the failure is that the label moved (down) and the immediate left its range -- inherent to any option that changes the layout."""
+    labels = {k: v for k, v in dict(ru.get('labels', [])).items() if k not in dict(ru.get('constants', []))}
+    line = lines[n - 1]
+    code = line.split('#')[0]
+    head, _, rest = code.strip().partition(' ')
+    used = [k for k in labels if re.search(r'(?<![\w.%])' + re.escape(k) + r'(?![\w])', rest)]
+    if not used:
+        return 'other'
+    new_rest = rest
+    for k in used:
+        new_rest = re.sub(r'(?<![\w.%])' + re.escape(k) + r'(?![\w])', str(labels[k]), new_rest)
+    if '%position' in new_rest.lower():
+        # %position(L, e) = value of L + e : write the number
+        new_rest = re.sub(r'%position\s*\(\s*(-?\d+)\s*,?\s*([^)]*)\)', lambda m: '{} + ({})'.format(m.group(1), m.group(2).strip() or '0'), new_rest,
+                          flags=re.I)
+    variant = list(lines)
+    variant[n - 1] = head + ' ' + new_rest
+    asm = harness.real_asm()
+    rv = pipeline.run_real(asm, '\n'.join(variant), True)
+    return 'absolute-label-value-moved' if rv.get('status') == 'OK' else 'other'
+
+
 def compress_failure_cause(source, rc, ru):
     """Names the one cause that is a known finding (K1): the line refused with -c is a pc-relative transfer to a LABEL and an
     `align` stands between the transfer and the label -- the align absorbs what compression saves on one side, so the distance
@@ -340,7 +366,9 @@ def compress_failure_cause(source, rc, ru):
     if not (1 <= n <= len(lines)):
         return 'other'
     toks = [t for t in lines[n - 1].split('#')[0].replace(',', ' ').split() if t]
-    if not toks or toks[0].lower() not in TRANSFER_HEADS:
+    if toks and toks[0].lower() not in TRANSFER_HEADS:
+        return absolute_label_cause(lines, n, ru)
+    if not toks:
         return 'other'
     target = toks[-1]
     labels = dict(ru.get('labels', []))
